@@ -198,8 +198,20 @@ fn o_hist(h: &crate::history::Hist<Fields>, st: &mut Stats) -> Result<(), String
     crate::history::judge(h, &text, o_fields, st)
 }
 
+fn o_session(s: &crate::history::Session<Fields>, st: &mut Stats) -> Result<(), String> {
+    crate::history::judge_session(s, o_fields, st)
+}
+
 pub fn sections() -> Vec<Box<dyn Section>> {
     vec![
+        Box::new(Random {
+            name: "sessions-of-fields".into(),
+            quick: 60,
+            thorough: 2000,
+            strategy: Box::new(|_| crate::history::gsession(gfields())),
+            oracle: o_session,
+            required: vec!["judged inside a session", "session of 1000 or more cases"],
+        }),
         Box::new(Random {
             name: "random-fields-after-a-prelude".into(),
             quick: 16_000,
